@@ -18,6 +18,7 @@ import (
 	"slices"
 	"strings"
 	"sync"
+	"sync/atomic"
 	"time"
 
 	"github.com/rs/zerolog/log"
@@ -50,6 +51,7 @@ type ProjectRunner struct {
 	mainProcessArgs   []string
 	isTuiOn           bool
 	isOrderedShutDown bool
+	shutDownRequested atomic.Bool
 	ctxApp            context.Context
 	cancelAppFn       context.CancelFunc
 	disableDotenv     bool
@@ -211,6 +213,11 @@ func (p *ProjectRunner) waitIfNeeded(process *types.ProcessConfig) error {
 func (p *ProjectRunner) onProcessEnd(exitCode int, procConf *types.ProcessConfig) {
 	if (exitCode != 0 && procConf.RestartPolicy.Restart == types.RestartPolicyExitOnFailure) ||
 		procConf.RestartPolicy.ExitOnEnd {
+		if p.shutDownRequested.Load() {
+			// terminated by (or ended during) a project shutdown that was already requested:
+			// not the process that triggered it
+			return
+		}
 		_ = p.ShutDownProject()
 		p.exitCode = exitCode
 		verifTraceRunner(p, "ProjExit", "code", exitCode, "by", procConf.ReplicaName, "cause", "end")
@@ -219,6 +226,9 @@ func (p *ProjectRunner) onProcessEnd(exitCode int, procConf *types.ProcessConfig
 
 func (p *ProjectRunner) onProcessSkipped(procConf *types.ProcessConfig) {
 	if procConf.RestartPolicy.ExitOnSkipped {
+		if p.shutDownRequested.Load() {
+			return
+		}
 		_ = p.ShutDownProject()
 		p.exitCode = 1
 		verifTraceRunner(p, "ProjExit", "code", 1, "by", procConf.ReplicaName, "cause", "skipped")
@@ -562,6 +572,7 @@ func (p *ProjectRunner) shutDownAndWait(shutdownOrder []*Process) {
 }
 
 func (p *ProjectRunner) ShutDownProject() error {
+	p.shutDownRequested.Store(true)
 	p.runProcMutex.Lock()
 	defer p.runProcMutex.Unlock()
 
